@@ -79,6 +79,51 @@ def tp_expand(params, hist):
 
 
 # ---------------------------------------------------------------- part 2: transport vs adversarial peer
+class KafkaTagPeer(object):
+  """Kafka broker stand-in for the tag (correlation id) checks: parses request headers with the independent codec."""
+  ordered = False
+
+  def __init__(self, net, conn, server_log):
+    from ..refcodec import kafka as K
+    self.K = K
+    self.net = net
+    self.conn = conn
+    self.buf = bytearray()
+    self.server_log = server_log
+    self.outstanding = {}
+    self.discards = []
+    self.violations = []
+    self.frames = []
+
+  def feed(self, data):
+    K = self.K
+    self.buf += data
+    while len(self.buf) >= 4:
+      (n,) = struct.unpack('>i', bytes(self.buf[:4]))
+      if n < 0 or len(self.buf) < 4 + n:
+        break
+      fr = bytes(self.buf[:4 + n])
+      del self.buf[:4 + n]
+      try:
+        req = K.parse_request(fr)
+      except Exception as e:  # noqa
+        self.violations.append(('bad-frame', repr(e)))
+        continue
+      tag = req['correlation_id']
+      arg = req['body'].decode('utf-8', 'replace')
+      rec = {'time': self.net.lp.now(), 'conn': self.conn.id, 'tag': tag, 'raw': fr, 'arg': arg, 'seq': len(self.server_log),
+             'dup_tag': tag in self.outstanding}
+      self.server_log.append(rec)
+      self.outstanding[tag] = rec
+      self.net.post('frame', self.conn, K.frame(struct.pack('>i', tag) + b'ok'), {'for': arg, 'tag': tag, 'n': rec['seq']})
+
+  def answered(self, tag):
+    self.outstanding.pop(tag, None)
+
+  def on_client_close(self):
+    pass
+
+
 class TWorld(object):
   def __init__(self, params):
     from scales.constants import SinkProperties
@@ -89,7 +134,11 @@ class TWorld(object):
     self.server_log = []
     self.H = hello()
     world.SHIMS['thriftmux'].randint_domain = lambda a, b: [a]
-    self.net.add_endpoint('h0', 1000, lambda net, c: peers.MuxPeer(net, c, self.H.Processor, peers.EchoHandler, self.server_log))
+    self.proto = params.get('proto', 'mux')
+    if self.proto == 'kafka':
+      self.net.add_endpoint('h0', 1000, lambda net, c: KafkaTagPeer(net, c, self.server_log))
+    else:
+      self.net.add_endpoint('h0', 1000, lambda net, c: peers.MuxPeer(net, c, self.H.Processor, peers.EchoHandler, self.server_log))
     self.props = {SinkProperties.Endpoint: Endpoint('h0', 1000), SinkProperties.Label: 'svc'}
     self.term = stubs.make_terminal_class()()
     self.viol = []
@@ -111,7 +160,10 @@ class TWorld(object):
 
   def new_transport(self):
     import gevent
-    from scales.thriftmux.sink import SocketTransportSink
+    if self.proto == 'kafka':
+      from scales.kafka.sink import KafkaTransportSink as SocketTransportSink
+    else:
+      from scales.thriftmux.sink import SocketTransportSink
     self.generation += 1
     self.sink = SocketTransportSink.Builder().CreateSink(self.props)
     self.open_g = gevent.spawn(lambda: self.sink.Open().wait())
@@ -198,10 +250,11 @@ class TWorld(object):
       wu = self.written_unanswered.get(c.id, {})
       highest = max([r['tag'] for r in self.server_log if r.get('conn') == c.id and 'raw' in r] or [1])
       answered = sorted(set(r['tag'] for r in self.server_log if r.get('conn') == c.id and 'raw' in r and r['tag'] not in wu))
-      cands = [0, 1, highest + 1, highest + 5] + answered[:1]
+      cands = [0, 1, highest + 1, highest + 5] + answered[:1] + [t | 0x800000 for t in sorted(wu)[:1]]
       for tg in cands:
         alts.append(('peer-sends-bogus-reply tag=%d' % tg, lambda tg=tg, c=c: self._bogus(c, tg)))
-      alts.append(('peer-sends-unsolicited-rping', lambda c=c: self._bogus(c, None)))
+      if self.proto != 'kafka':
+        alts.append(('peer-sends-unsolicited-rping', lambda c=c: self._bogus(c, None)))
       if self.p.get('reset') and not getattr(self, 'did_reset', False):
         alts.append(('reset c%d and open a fresh transport' % c.id, lambda c=c: self._reset(c)))
     return alts
@@ -213,7 +266,12 @@ class TWorld(object):
 
   def _bogus(self, c, tag):
     self.adversarial_used += 1
-    if tag is None:
+    if self.proto == 'kafka':
+      from ..refcodec import kafka as K
+      c.rx += K.frame(struct.pack('>i', tag if tag is not None else 1) + b'bogus')
+      if tag is not None:
+        self.peer_answers(c, tag)
+    elif tag is None:
       c.rx += M.rping(1)
     else:
       from thrift.protocol.TBinaryProtocol import TBinaryProtocol
@@ -238,6 +296,7 @@ class TWorld(object):
   def _timeout(self, r):
     from scales.message import MethodReturnMessage, TimeoutError
     r['timed_out'] = True
+    r['writes_at_timeout'] = len(self.net.write_log)
     r['evt'].Set(True)
     r['stack'].AsyncProcessResponseMessage(MethodReturnMessage(error=TimeoutError()))
 
@@ -259,11 +318,16 @@ class TWorld(object):
     if rec['deadline']:
       rec['evt'] = Observable()
       msg.properties[Deadline.EVENT_KEY] = rec['evt']
-    body = M.encode_ctx([]) + struct.pack('>hh', 0, 0) + thrift_payload(arg)
+    if self.proto == 'kafka':
+      body = arg.encode('utf-8')
+      mtype = 0
+    else:
+      body = M.encode_ctx([]) + struct.pack('>hh', 0, 0) + thrift_payload(arg)
+      mtype = 2
     buf = BytesIO()
     buf.write(body)
     self.reqs.append(rec)
-    gevent.spawn(self.sink.AsyncProcessRequest, stack, msg, buf, {TransportHeaders.MessageType: 2})
+    gevent.spawn(self.sink.AsyncProcessRequest, stack, msg, buf, {TransportHeaders.MessageType: mtype})
 
   def finish(self):
     self.lp.monitor = None
@@ -272,6 +336,12 @@ class TWorld(object):
       n = len(self.term.responses.get(r['name'], []))
       if n > 1:
         self.v('C11.answered-twice', 'request %s received %d responses' % (r['name'], n))
+      if r['timed_out']:
+        needle = r['arg'].encode('utf-8')
+        later = [w for w in self.net.write_log[r['writes_at_timeout']:] if needle in w[2]]
+        if later:
+          self.v('C12.sent-after-timeout', 'request %s: its caller was handed TimeoutError (deadline fired), and afterwards its request was '
+                 'written to connection c%d' % (r['name'], later[0][1]), transport=self.proto)
     # tag consumption bounded by peak concurrency + unanswered discards (per transport / connection)
     gen = 0
     for c in self.net.conns:
@@ -346,6 +416,8 @@ def scenarios(tier):
     ('requests issued while opening', {'ops': [['req', 'a', True], ['req', 'b']], 'max_adversarial': 1, 'early': True}),
     ('connection reset and fresh transport', {'ops': [['req', 'a'], ['req', 'b', True], ['req', 'c']], 'max_adversarial': 1, 'reset': True}),
   ]
+  out.append(('kafka transport: 3 requests, 2 with deadlines', {'proto': 'kafka', 'ops': [['req', 'a', True], ['req', 'b'], ['req', 'c', True]],
+                                                              'max_adversarial': 1}))
   out.append(('3 requests, a deadline may fire between two ready callbacks',
               {'ops': [['req', 'a', True], ['req', 'b', True], ['req', 'c']], 'max_adversarial': 1, 'max_preempt': 1, '_bound': 2}))
   if tier == 'thorough':
@@ -365,7 +437,8 @@ def main(tier, seed):
       own = '_bound' in params
       b = params.pop('_bound', bound) + (1 if tier == 'thorough' and own else 0)
       agg = explore.explore('vt.checks.c11', 'run_exec', params, b, seed=seed, pool=pool, split_levels=1 if b <= 2 else 2)
-      rep.add_explore('mux transport: ' + name, agg, b, params=params)
+      agg.violations = [v for v in agg.violations if v['clause'].startswith('C11.')]
+      rep.add_explore('transport: ' + name, agg, b, params=params)
   finally:
     pool.close()
     pool.join()
